@@ -369,6 +369,9 @@ def run_cond_programs(chk, tier, rng, key0):
     todo = rng.sample(enum_only, min(n_each, len(enum_only))) + rng.sample(mixed, min(n_each, len(mixed)))
     fam = [n for n in enum_only if penum_then_cond_on_value(byprog[n][0])]
     todo += [n for n in fam[:2] if n not in todo]          # the recorded finding is exercised on every run
+    nested = [n for n in mixed if any(it["k"] == "cond" and any(j["k"] == "cond" for j in it["T"]["items"]) for it in byprog[n][0]["items"])
+              and n not in todo]
+    todo += rng.sample(nested, min(8 if tier == "quick" else 60, len(nested)))      # a cond nested in a branch, with mvd / rf sites
     pc = [n for n in enum_only if "pcat" in kinds_of(byprog[n][0]) and n not in todo]
     todo += rng.sample(pc, min(4 if tier == "quick" else 40, len(pc)))
     nkeys = 300 if tier == "quick" else 3000
